@@ -74,6 +74,7 @@ pub fn c07_configs(thorough: bool) -> Vec<EpCfg> {
         }
     }
     v.extend(large_id_configs("c07", "c07", thorough));
+    v.extend(oversized_reply_configs("c07", "c07", thorough));
     v
 }
 /// exchanges with large identifier values in both directions (the application reserves its own with
@@ -115,6 +116,37 @@ pub fn c07(rep: &mut Report) {
 
 // ------------------------------------------------------------------------------------------
 // C08
+
+/// manual responses whose first attempt carries a 40-byte Reason String under a peer Maximum Packet Size of 30:
+/// the library refuses it (too large) and the application falls back to the plain reply. A refused reply must
+/// leave the exchange, the identifiers and the handled set exactly as they were.
+pub fn oversized_reply_configs(prefix: &str, group: &'static str, thorough: bool) -> Vec<EpCfg> {
+    let mut v = vec![];
+    for role in [RoleK::Client, RoleK::Server] {
+        if !thorough && role == RoleK::Server {
+            continue;
+        }
+        let ver = Ver::V5;
+        let mut c = EpCfg::new(&cfg_name(prefix, role, Some(ver), "oversized-replies"), role, Some(ver));
+        c.auto_pub = false;
+        c.window = 2;
+        c.alph = session_alph(true, 2);
+        c.alph.pub_q = vec![1, 2];
+        c.alph.peer_pub_q = vec![1, 2];
+        c.alph.peer_ids = vec![1, 2];
+        c.alph.peer_dup = true;
+        c.alph.peer_acks = vec![AckKind::Puback, AckKind::Pubrec, AckKind::Pubcomp, AckKind::Pubrel];
+        c.alph.peer_ack_ids = vec![1, 2];
+        c.alph.reply_err = true;
+        c.alph.reply_big = true;
+        c.alph.defer_pubrel = true;
+        c.connects = vec![ConnProf { mps: Some(30), ..ConnProf::basic(false) }, ConnProf::basic(false)];
+        c.connacks = vec![AckProf { mps: Some(30), ..AckProf::basic(true) }, AckProf { mps: Some(30), ..AckProf::basic(false) }, AckProf::basic(true)];
+        c.groups = vec![group];
+        v.push(c);
+    }
+    v
+}
 
 pub fn c08_configs(thorough: bool) -> Vec<EpCfg> {
     let mut v = vec![];
@@ -162,6 +194,7 @@ pub fn c08_configs(thorough: bool) -> Vec<EpCfg> {
         }
     }
     v.extend(large_id_configs("c08", "c08", thorough));
+    v.extend(oversized_reply_configs("c08", "c08", thorough));
     // raw id-management calls for every id value incl. 0 and the type maximum
     for role in [RoleK::Client, RoleK::Server] {
         for ver in VERS {
@@ -295,43 +328,62 @@ pub fn c12(rep: &mut Report) {
     }
 }
 
-/// M = 65535: one scripted path (65 535 accepted, next refused, vacancy 0, acks bring it back).
+/// M = 65535: one scripted path per identifier width (65 535 accepted, next refused, vacancy 0, acks bring it
+/// back). With 16-bit identifiers the 65 536th publish cannot even get an identifier; with 32-bit identifiers
+/// it can be attempted and must be refused without wrapping the counter.
 fn c12_max(rep: &mut Report) {
+    c12_max_w::<u16>(rep);
+    c12_max_w::<u32>(rep);
+}
+fn c12_max_w<P: crate::bridge::Pid>(rep: &mut Report) {
     use crate::bridge::build;
     use crate::conn::{ConnBox, Ev};
     use crate::refcodec::{self as rc, PVal, Prop, AP};
+    use mqtt_protocol_core::mqtt::result_code::MqttError;
     let r = crate::util::guarded(|| {
-        let mut c = ConnBox::<u16>::new(RoleK::Client, Some(Ver::V5));
+        let mut c = ConnBox::<P>::new(RoleK::Client, Some(Ver::V5));
         c.set_auto_pub_response(true);
-        let _ = c.send(build::<u16>(&ConnProf::basic(true).ap(Ver::V5)).ok().unwrap());
+        let _ = c.send(build::<P>(&ConnProf::basic(true).ap(Ver::V5)).ok().unwrap());
         let connack = AP::Connack { ver: Ver::V5, sp: false, code: 0, props: vec![Prop { id: 0x21, val: PVal::U16(65535) }] };
-        let _ = c.recv_all(&rc::encode(&connack, 2));
+        let _ = c.recv_all(&rc::encode(&connack, P::W));
         assert_eq!(c.vacancy(), Some(65535));
+        let mut ids = vec![];
         for i in 0..65535u32 {
             let id = c.acquire().expect("id");
+            ids.push(id);
             let p = AP::Publish { ver: Ver::V5, dup: false, qos: 1, retain: false, topic: b"a".to_vec(), pid: Some(id), props: vec![], payload: vec![] };
-            let ev = c.send(build::<u16>(&p).ok().unwrap());
+            let ev = c.send(build::<P>(&p).ok().unwrap());
             assert!(ev.iter().any(|e| matches!(e, Ev::Send { .. })), "publish {i} must be accepted");
+            assert_eq!(c.vacancy(), Some((65534 - i) as u16), "vacancy after publish {i}");
         }
         assert_eq!(c.vacancy(), Some(0));
-        // all ids are in use now, so a 65 536th publish cannot even get an id: exhaustion is reported
-        assert!(c.acquire().is_err());
-        for id in 1..=65535u32 {
-            let (l, _) = c.recv_all(&rc::encode(&AP::Ack { ver: Ver::V5, kind: AckKind::Puback, pid: id, code: None, props: None }, 2));
-            assert!(l.iter().flatten().any(|e| matches!(e, Ev::Released(x) if *x == id)), "PUBACK {id} must release");
+        if P::W == 2 {
+            // all ids are in use now, so a 65 536th publish cannot even get an id: exhaustion is reported
+            assert!(c.acquire().is_err());
+        } else {
+            // 32-bit identifiers: the 65 536th publish gets an identifier and must be refused at the limit
+            let id = c.acquire().expect("a 32-bit identifier is available");
+            let p = AP::Publish { ver: Ver::V5, dup: false, qos: 1, retain: false, topic: b"a".to_vec(), pid: Some(id), props: vec![], payload: vec![] };
+            let ev = c.send(build::<P>(&p).ok().unwrap());
+            assert!(ev.iter().any(|e| matches!(e, Ev::Error(MqttError::ReceiveMaximumExceeded))) && !ev.iter().any(|e| matches!(e, Ev::Send { .. })), "publish 65536 must be refused with ReceiveMaximumExceeded: {:?}", ev.iter().map(|e| e.short()).collect::<Vec<_>>());
+            assert!(ev.iter().any(|e| matches!(e, Ev::Released(x) if *x == id)), "the refused publish must give its identifier back");
+            assert_eq!(c.vacancy(), Some(0), "vacancy after the refused publish");
+        }
+        for (n, id) in ids.iter().enumerate() {
+            let (l, _) = c.recv_all(&rc::encode(&AP::Ack { ver: Ver::V5, kind: AckKind::Puback, pid: *id, code: None, props: None }, P::W));
+            assert!(l.iter().flatten().any(|e| matches!(e, Ev::Released(x) if x == id)), "PUBACK {id} must release");
+            assert_eq!(c.vacancy(), Some((n + 1) as u16), "vacancy after PUBACK {id}");
         }
         assert_eq!(c.vacancy(), Some(65535));
-        // limit 65535 with one id parked by the application: the 65 535th publish is impossible, but
-        // with limit 2 and three ids the refusal path is the explored one (closure configs)
     });
     rep.count("c12.scripted-65535", 1);
     if let Err(m) = r {
         rep.violation(crate::report::Violation {
             rule: "c12.scripted".into(),
-            sig: format!("c12.scripted|{}", crate::util::panic_sig(&m)),
-            detail: format!("scripted Receive Maximum 65535 path failed: {m}"),
+            sig: format!("c12.scripted|{}|w{}", crate::util::panic_sig(&m), P::W),
+            detail: format!("scripted Receive Maximum 65535 path ({}-bit identifiers) failed: {m}", P::W * 8),
             config: "c12 scripted M=65535".into(),
-            history: vec![serde_json::json!("CONNACK Receive Maximum 65535; 65535 x publish QoS1; vacancy 0; 65535 x PUBACK; vacancy 65535")],
+            history: vec![serde_json::json!(format!("{}-bit identifiers: CONNACK Receive Maximum 65535; 65535 x publish QoS1; vacancy 0; one more publish (refused); 65535 x PUBACK; vacancy 65535", P::W * 8))],
         });
     }
 }
@@ -400,6 +452,30 @@ pub fn c13_configs(thorough: bool) -> Vec<EpCfg> {
                     v.push(c);
                 }
             }
+        }
+    }
+    // property blocks of 125..127 bytes: the alias property that auto-map adds, and the one the store copy of a
+    // manually aliased PUBLISH drops, move the Property Length across its one-byte / two-byte boundary - the
+    // frame must still be one a receiver reads back (rule pub.frame-checked)
+    for pad in [119usize, 120, 121] {
+        if !thorough && pad != 120 {
+            continue;
+        }
+        for mode in ["manual", "auto-map", "auto-replace"] {
+            if !thorough && mode == "auto-replace" {
+                continue;
+            }
+            let mut c = EpCfg::new(&cfg_name("c13", RoleK::Client, Some(Ver::V5), &format!("padded properties pad={pad} {mode}")), RoleK::Client, Some(Ver::V5));
+            c.auto_pub = true;
+            c.auto_map = mode == "auto-map";
+            c.auto_replace = mode == "auto-replace";
+            c.window = 2;
+            c.pub_pad = pad;
+            c.alph = Alph { pub_q: vec![0, 1], topics: 2, als: if mode == "auto-map" { vec![Al::No] } else { vec![Al::No, Al::Reg(1), Al::Use(1)] }, peer_acks: vec![AckKind::Puback], peer_ack_ids: vec![1, 2], spontaneous_close: true, ..Alph::default() };
+            c.connects = vec![ConnProf { tam: Some(1), ..ConnProf::basic(false) }];
+            c.connacks = vec![AckProf { tam: Some(1), ..AckProf::basic(true) }, AckProf { tam: Some(1), ..AckProf::basic(false) }];
+            c.groups = vec!["c13"];
+            v.push(c);
         }
     }
     // receive side
@@ -503,11 +579,16 @@ pub fn c14_configs(thorough: bool) -> Vec<EpCfg> {
     // 129 (QoS 0, body 127, one length byte) and 131 bytes (body 128, two length bytes); QoS 1 adds 2, an alias 3
     for role in [RoleK::Client, RoleK::Server] {
         for lim in [129u32, 130, 131, 132, 133] {
-            if !thorough && (role == RoleK::Server || !(lim == 130 || lim == 131)) {
+            if !thorough && (role == RoleK::Server || !(lim == 130 || lim == 131 || lim == 132)) {
                 continue;
             }
             for mode in ["manual", "auto-map"] {
-                if !thorough && mode == "auto-map" && lim != 131 {
+                if !thorough && mode == "manual" && lim == 132 {
+                    continue;
+                }
+                // (132 = the 129-byte frame plus the 3-byte alias property, one short of what the rewritten frame
+                // needs once its Remaining Length takes a second byte)
+                if !thorough && mode == "auto-map" && lim != 131 && lim != 132 {
                     continue;
                 }
                 let mut c = EpCfg::new(&cfg_name("c14", role, Some(Ver::V5), &format!("rl-boundary limit={lim} {mode}")), role, Some(Ver::V5));
@@ -529,6 +610,43 @@ pub fn c14_configs(thorough: bool) -> Vec<EpCfg> {
                 // the same limit in both directions, Topic Alias Maximum 1 both ways; persistent session so that
                 // stored copies (full topic) meet the limit on resume
                 c.connects = vec![ConnProf { mps: Some(lim), tam: Some(1), ..ConnProf::basic(false) }];
+                c.connacks = vec![AckProf { mps: Some(lim), tam: Some(1), ..AckProf::basic(true) }];
+                c.groups = vec!["c14"];
+                v.push(c);
+            }
+        }
+    }
+    // the 127 / 128 *Property Length* boundary: a User Property pads the property block of every publish to
+    // 125..127 bytes, the 3-byte alias property that auto-map adds (or the store copy drops) moves it across;
+    // limits of the given frame + 3 and + 4 (the rewritten frame needs + 4 when the length field grows)
+    for pad in [119usize, 120, 121] {
+        if !thorough && pad != 120 {
+            continue;
+        }
+        // PUBLISH QoS 0, topic 'a', payload 'p', property block = the padded User Property (pad + 6 bytes)
+        let body = 2 + 1 + 1 + (pad + 6) + 1;
+        let given = 1 + if body < 128 { 1 } else { 2 } + body;
+        for extra in [3u32, 4] {
+            for mode in ["auto-map", "manual"] {
+                if mode == "manual" && extra == 3 && !thorough {
+                    continue;
+                }
+                let lim = given as u32 + extra + if mode == "manual" { 2 } else { 0 };
+                let mut c = EpCfg::new(&cfg_name("c14", RoleK::Client, Some(Ver::V5), &format!("prop-length-boundary pad={pad} limit={lim} {mode}")), RoleK::Client, Some(Ver::V5));
+                c.auto_pub = true;
+                c.auto_map = mode == "auto-map";
+                c.window = 1;
+                c.pub_pad = pad;
+                c.alph = Alph {
+                    pub_q: vec![0, 1],
+                    topics: 1,
+                    als: if mode == "manual" { vec![Al::No, Al::Reg(1), Al::Use(1)] } else { vec![Al::No] },
+                    peer_acks: vec![AckKind::Puback],
+                    peer_ack_ids: vec![1],
+                    spontaneous_close: true,
+                    ..Alph::default()
+                };
+                c.connects = vec![ConnProf { tam: Some(1), ..ConnProf::basic(false) }];
                 c.connacks = vec![AckProf { mps: Some(lim), tam: Some(1), ..AckProf::basic(true) }];
                 c.groups = vec!["c14"];
                 v.push(c);
@@ -636,9 +754,12 @@ pub fn c15_configs(thorough: bool) -> Vec<EpCfg> {
                         als: vec![Al::No],
                         ping: true,
                         disconnect: true,
-                        peer_pub_q: vec![0, 1],
+                        // (QoS 2 with retransmissions of an already handled identifier: answered without
+                        // notification, but an accepted packet all the same)
+                        peer_pub_q: vec![0, 1, 2],
+                        peer_dup: true,
                         peer_ids: vec![1],
-                        peer_acks: vec![AckKind::Pubrec, AckKind::Pubcomp],
+                        peer_acks: vec![AckKind::Pubrec, AckKind::Pubcomp, AckKind::Pubrel],
                         peer_ack_ids: vec![1],
                         peer_ping: true,
                         peer_disconnect: true,
